@@ -383,3 +383,118 @@ Proof. induction qs as [|q r IH]; simpl; [reflexivity|]. f_equal. exact IH. Qed.
 Lemma pop_quirk_refuted :
   exists rs qs, qrun {| pop_pos_vel := true; upper_key_err := false |} (Some rs) qs <> qrun all_off (Some rs) qs.
 Proof. exists [(Some 0, Some 10, 7)], [At 5; At 5]. vm_compute. discriminate. Qed.
+
+(* ---------------------------------------------------------------- one-shot iterables, get_history (round e) *)
+
+(* a one-shot iterable (generator expression, map / filter object, iterator) is the list it enumerates *)
+Lemma normalize_iter l : normalize (AsIter l) = normalize (AsList l).
+Proof. reflexivity. Qed.
+
+Lemma normalize_idem st : normalize (AsList (normalize st)) = normalize st.
+Proof.
+  destruct st as [s|l|l]; unfold normalize; rewrite map_map; apply map_ext; intros x; apply lower_idem.
+Qed.
+
+Lemma iter_forms sd mods l q :
+  module_get sd (AsIter l) q = module_get sd (AsList l) q /\
+  module_get_history sd (AsIter l) = module_get_history sd (AsList l) /\
+  site_info_get mods (AsIter l) q = site_info_get mods (AsList l) q /\
+  site_info_get_history mods (AsIter l) = site_info_get_history mods (AsList l).
+Proof. repeat split; reflexivity. Qed.
+
+Lemma sdict_adict d k v : sdict_set d k v = adict_set d k v.
+Proof. induction d as [|[k' v'] r IH]; simpl; [reflexivity|]. rewrite IH. reflexivity. Qed.
+
+(* column n of a combined result: {station: value of module n} *)
+Definition column {A : Type} (n : nat) (dflt : A) (rows : list (string * list A)) : list (string * A) :=
+  map (fun p => (fst p, nth n (snd p) dflt)) rows.
+
+Lemma column_set {A : Type} n (dflt : A) acc st row :
+  column n dflt (adict_set acc st row) = adict_set (column n dflt acc) st (nth n row dflt).
+Proof.
+  unfold column. induction acc as [|[k' v'] r IH]; simpl; [reflexivity|].
+  destruct (String.eqb st k'); simpl; [reflexivity|]. f_equal. exact IH.
+Qed.
+
+Lemma find_none_all {A : Type} (f : A -> bool) l : find f l = None -> forall x, In x l -> f x = false.
+Proof.
+  induction l as [|a r IH]; simpl; intros H x Hin; [destruct Hin|].
+  destruct (f a) eqn:E; [discriminate|]. destruct Hin as [->|Hin]; [exact E|]. apply IH; assumption.
+Qed.
+
+Lemma site_info_list_column mods n sd q : nth_error mods n = Some sd ->
+  forall sts acc rows,
+  site_info_list mods sts q acc = inl rows ->
+  module_get_list all_off sd sts q (column n Nothing acc) = inl (column n Nothing rows).
+Proof.
+  intros Hn. induction sts as [|st r IH]; intros acc rows H; simpl in *.
+  - inversion H. reflexivity.
+  - destruct (find is_err (site_info_get1 mods st q)) eqn:F; [discriminate|].
+    assert (Hrow : nth_error (site_info_get1 mods st q) n = Some (module_get1 sd st q)).
+    { unfold site_info_get1. apply (map_nth_error (fun sd0 : source => module_get1 sd0 st q) n mods Hn). }
+    assert (Hv : nth n (site_info_get1 mods st q) Nothing = module_get1 sd st q).
+    { apply nth_error_nth. exact Hrow. }
+    fold (module_get1 sd st q).
+    rewrite (find_none_all is_err _ F (module_get1 sd st q) (nth_error_In _ _ Hrow)).
+    rewrite sdict_adict, <- Hv, <- column_set. apply IH. exact H.
+Qed.
+
+(* the combined query, on ANY form of the station argument, is column by column what the module returns for
+   the list of names the argument denotes *)
+Lemma site_info_get_column mods st q n sd rows :
+  nth_error mods n = Some sd ->
+  site_info_get mods st q = inl rows ->
+  module_get sd (AsList (normalize st)) q = inl (column n Nothing rows).
+Proof.
+  intros Hn H. unfold module_get, module_getq. rewrite normalize_idem.
+  apply (site_info_list_column mods n sd q Hn (normalize st) [] rows H).
+Qed.
+
+Lemma hrow_nth l : forall row, hrow l = inl row ->
+  forall n x, nth_error l n = Some x -> x = inl (nth n row None).
+Proof.
+  induction l as [|a r IH]; intros row H n x Hn.
+  - destruct n; discriminate.
+  - simpl in H. destruct a as [h|e]; [|discriminate].
+    destruct (hrow r) as [t|e] eqn:E; [|discriminate]. inversion H; subst row.
+    destruct n as [|n]; simpl in *.
+    + inversion Hn. reflexivity.
+    + apply (IH t eq_refl n x Hn).
+Qed.
+
+Lemma site_info_hist_list_column mods n sd : nth_error mods n = Some sd ->
+  forall sts acc rows,
+  site_info_hist_list mods sts acc = inl rows ->
+  module_hist_list sd sts (column n None acc) = inl (column n None rows).
+Proof.
+  intros Hn. induction sts as [|st r IH]; intros acc rows H; simpl in *.
+  - inversion H. reflexivity.
+  - destruct (hrow (site_info_hist1 mods st)) as [row|e] eqn:F; [|discriminate].
+    assert (Hrow : nth_error (site_info_hist1 mods st) n = Some (module_hist1 sd st)).
+    { unfold site_info_hist1. apply (map_nth_error (fun sd0 : source => module_hist1 sd0 st) n mods Hn). }
+    rewrite (hrow_nth _ row F n _ Hrow).
+    rewrite <- column_set. apply IH. exact H.
+Qed.
+
+Lemma site_info_get_history_column mods st n sd rows :
+  nth_error mods n = Some sd ->
+  site_info_get_history mods st = inl rows ->
+  module_get_history sd (AsList (normalize st)) = inl (column n None rows).
+Proof.
+  intros Hn H. unfold module_get_history. rewrite normalize_idem.
+  apply (site_info_hist_list_column mods n sd Hn (normalize st) [] rows H).
+Qed.
+
+(* a dated query is the lookup in the history that get_history returns *)
+Lemma module_get_via_history sd st q :
+  match module_hist1 sd st with
+  | inl (Some h) => module_get1 sd st q = get h q
+  | inl None => module_get1 sd st q = Nothing
+  | inr e => module_get1 sd st q = e
+  end.
+Proof.
+  unfold module_hist1, module_get1, module_get1q, lookup_station.
+  destruct sd as [|p sd']; [destruct q; reflexivity|].
+  destruct (assoc st (p :: sd')) as [[rs|]|]; try reflexivity.
+  destruct (assoc (upper st) (p :: sd')) as [[rs|]|]; reflexivity.
+Qed.
